@@ -125,7 +125,7 @@ def C43_float_full : Prop :=
   ∀ a w : Rat, rn a = a → rn w = w → 0 < w → 0 ≤ wrap1F a w ∧ wrap1F a w < w
 
 /-- It fails: `wrap1(-1e-20, 360.0) == 360.0` — the exact result `360 - 1e-20` rounds to the
-excluded end point.  Witness of known finding D43.1. -/
+excluded end point.  Witness of known finding D43a. -/
 theorem C43_counterexample_float : ¬ C43_float_full := by
   intro h
   have := h (mkRat (-6646139978924579) (2 ^ 119)) 360 (by decide +kernel) (by decide +kernel)
@@ -133,7 +133,7 @@ theorem C43_counterexample_float : ¬ C43_float_full := by
   revert this
   decide +kernel
 
-/-- Proved part: where no rounding occurs (`floatDiffers = false`, the region predicate of D43.1)
+/-- Proved part: where no rounding occurs (`floatDiffers = false`, the region predicate of D43a)
 the binary64 results ARE the exact results, so every theorem of this file applies to them. -/
 theorem C43_float_agrees_partial (d a w : Rat) (H : floatDiffers d a w = false) :
     wrap1F a w = wrap1 a w ∧ wrap2F a w = wrap2 a w ∧ deltaF d a w = delta d a w := by
